@@ -450,13 +450,25 @@ func ledgerProj(l []eng.LedgerRow) [][2]interface{} {
 func (*c01) Oracle(ci, oi any) []hx.Violation {
 	h, o := ci.(eng.History), oi.(eng.Obs)
 	var vs []hx.Violation
-	add := func(sig, what string) { vs = append(vs, hx.Violation{Sig: sig, What: what}) }
+	// K14: Install.availableName / replaceRelease take a FAILED history lookup for "no such release"; when revision 1 has been
+	// pruned the install then stores a new revision 1 next to the existing history (c01_rfail.go c01LostNameCheck)
+	lostNameCheck := false
+	add := func(sig, what string) {
+		if lostNameCheck {
+			switch sig {
+			case "C01:two-deployed", "C01:revision-not-successor", "C01:success-without-deployed-head", "C01:previous-not-superseded":
+				sig, what = "C01:install-after-lost-name-check", what+" [the history lookup of the name check failed and was taken for 'the name is free']"
+			}
+		}
+		vs = append(vs, hx.Violation{Sig: sig, What: what})
+	}
 	var prev []eng.LedgerRow
 	for i, s := range h.Steps {
 		if i >= len(o.Steps) {
 			break
 		}
 		so := o.Steps[i]
+		lostNameCheck = c01LostNameCheck(s.Op, so, prev)
 		if so.Panic != "" {
 			add("C01:panic", fmt.Sprintf("step %d panicked: %s", i, so.Panic))
 		}
